@@ -1,5 +1,6 @@
 SPECIFICATION Spec
 CONSTANT Grid <- GridQuick
+CONSTANT ShuffleAll = FALSE
 INVARIANT TypeOK
 INVARIANT BurnExact
 INVARIANT SumPostIsOne
